@@ -801,6 +801,69 @@ class Rewriter:
         self.note('let-chain->nested-if', n)
         return code
 
+    # ---- R10: format! whose value matters and whose arguments are all strings -> vx::catN (sequence concatenation)
+    def format_cat(self, code, anchors):
+        n = 0
+        pos = 0
+        while True:
+            m = mask(code)
+            mm = re.compile(r'(?<![A-Za-z0-9_])format!\s*\(').search(m, pos)
+            if not mm:
+                break
+            op = mm.end() - 1
+            cp = match_close(m, op)
+            whole = code[mm.start():cp + 1]
+            pos = cp
+            if not ('*' in anchors or any(a in whole for a in anchors)):
+                continue
+            args = split_args(code[op + 1:cp])
+            if not args or not re.match(r'^"(\\.|[^"\\])*"$', args[0], re.S):
+                continue
+            lit = args[0][1:-1]
+            pieces, cur, k, ai, ok = [], '', 0, 1, True
+            while k < len(lit):
+                ch = lit[k]
+                if ch == '{' and lit[k:k + 2] == '{{':
+                    cur += '{'; k += 2
+                elif ch == '}' and lit[k:k + 2] == '}}':
+                    cur += '}'; k += 2
+                elif ch == '{':
+                    e = lit.find('}', k)
+                    inner = lit[k + 1:e]
+                    if inner == '':
+                        if ai >= len(args):
+                            ok = False; break
+                        arg = args[ai]; ai += 1
+                    elif re.match(r'^[A-Za-z_][A-Za-z0-9_]*$', inner):
+                        arg = inner
+                    else:
+                        ok = False; break
+                    pieces.append(('lit', cur)); cur = ''
+                    pieces.append(('arg', arg))
+                    k = e + 1
+                else:
+                    cur += ch; k += 1
+            if not ok or ai != len(args):
+                continue
+            pieces.append(('lit', cur))
+            parts = []
+            for kind, v in pieces:
+                if kind == 'lit':
+                    if v != '':
+                        parts.append('"%s"' % v)
+                else:
+                    parts.append('(%s).vx_str()' % v)
+            if not parts:
+                parts = ['""']
+            if len(parts) > 8:
+                continue
+            rep = 'vx::cat%d(%s)' % (len(parts), ', '.join(parts))
+            code = code[:mm.start()] + rep + code[cp + 1:]
+            pos = mm.start() + len(rep)
+            n += 1
+        self.note('format!(string args)->vx::catN', n)
+        return code
+
     # ---- R8: local `const NAME: &[&str] = &[...]` -> `let NAME: Vec<&'static str> = vec![...]`
     def local_const_slices(self, code):
         n = 0
@@ -820,6 +883,8 @@ class Rewriter:
 
     def apply_all(self, code, opts):
         code = self.closure_underscore(code)
+        if opts.get('fmtcat'):
+            code = self.format_cat(code, opts['fmtcat'])
         code = self.let_chains(code)
         code = self.local_const_slices(code)
         if not opts.get('no_while_let'):
@@ -955,6 +1020,7 @@ METHOD_RULES = [
     (r'\.\s*lines\s*\(\s*\)\s*\.\s*collect\s*(::\s*<[^()]*>)?\s*\(', 'vx_lines', 'rename', 'str.lines().collect->vx_lines'),
     (r'\.\s*replace\s*\(\s*\x27', 'vx_replace_char', 'rename_keep_tail', 'str.replace(char,_)->vx_replace_char'),
     (r'\.\s*extend\s*\(', 'vx_extend', 'rename', 'Vec.extend(vec)->vx_extend'),
+    (r'\.\s*replace\s*\(\s*"', 'vx_replace', 'rename_keep_tail', 'str.replace(&str,&str)->vx_replace'),
 ] + [
     (r'\.\s*%s\s*\(' % m, 'vx_%s' % m, 'rename', 'str.%s->vx_%s' % (m, m))
     for m in ('starts_with', 'ends_with', 'contains', 'find', 'rfind', 'strip_prefix', 'trim', 'trim_start', 'trim_end',
@@ -1088,6 +1154,32 @@ def slice_body(body: str, var: str, field: str):
                 only_other = False
         escapes = re.search(r'(?<![A-Za-z0-9_])(return|break|continue)(?![A-Za-z0-9_])|\?|panic!|unreachable!', mm)
         if only_other and not escapes:
+            dropped.append(st)
+        else:
+            kept.append(st)
+    return body[:ob + 1] + ''.join(kept) + body[cb:], len(dropped)
+
+
+def slice_acc(body: str, acc: str, keep_expr: str):
+    """program slice of an append-only accumulator function w.r.t. one source expression.
+    Rule: a top-level statement is DROPPED iff it does not mention `keep_expr`, every use of `acc` in it is an append
+    (`acc.push_str(` / `acc.push(`), and it contains no return / ? / break / continue / panic.  Dropped statements can only
+    append to `acc`; the clauses proved on the slice are monotone under appends (`has(r, piece)`), which is what makes
+    the rule sound for them."""
+    ob = body.index('{')
+    cb = body.rindex('}')
+    stmts = split_stmts(body[ob + 1:cb])
+    kept, dropped = [], []
+    for st in stmts:
+        mm = mask(st)
+        if keep_expr in st:
+            kept.append(st); continue
+        occ = [x for x in re.finditer(r'(?<![A-Za-z0-9_.])' + re.escape(acc) + r'(?![A-Za-z0-9_])', mm)]
+        if not occ:
+            kept.append(st); continue
+        append_only = all(re.match(r'\s*\.\s*(push_str|push)\s*\(', mm[x.end():]) for x in occ)
+        escapes = re.search(r'(?<![A-Za-z0-9_])(return|break|continue)(?![A-Za-z0-9_])|\?|panic!|unreachable!', mm)
+        if append_only and not escapes:
             dropped.append(st)
         else:
             kept.append(st)
